@@ -6,7 +6,7 @@ from .. import cv, gen, lib, ref
 from ..lib import call
 
 PROP = "C13"
-PLAN = {"quick": (1400, 400), "thorough": (20000, 3600)}
+PLAN = {"quick": (1400, 400), "thorough": (40000, 3600)}
 RULE = ("case = (A, relation, order); B is built from A by the reference model: identical copy, knots inserted, degree "
         "elevated, both, polynomial <-> rational with constant weights, control point perturbed by >=1e-3 (unequal) or "
         "<=1e-13 (equal), other weights (unequal), another interval, an unrelated curve; the quadruple A==B, B==A, A!=B, "
